@@ -161,6 +161,20 @@ def check_C15(run):
     return run.finish(rule="structurally nonsingular matrices incl. zero diagonals and singular leading blocks through ?gsisx over every drop-rule combination, tolerance, fill factor, norm, MILU variant, row permutation, Trans, ordering, tuning; discrete clauses on every run, exact solve clause where nothing is scaled, complete-LU clauses when nothing is dropped or replaced; the same under ASan+UBSan")
 
 
+def check_C16(run):
+    run.model_check("IO_fixed", "SluIO.tla", "MC_IO_fixed.cfg", coverage=False)
+    run.model_check("IO_exact", "SluIO.tla", "MC_IO_exact.cfg", coverage=False)
+    run.model_check("IO_legacy", "SluIO.tla", "MC_IO_legacy.cfg", expect_violation=True, coverage=False)
+    g = Gen(run.seed * 1000 + 16)
+    types = {"d": 1.0, "z": 0.5, "s": 0.4, "c": 0.3} if run.tier == "quick" else FULL_TYPES
+    outdir = os.path.join(vlib.WORK, "files_C16")
+    scen = F.fam_readers(g, "C16", sizes(run, 900, 6000), types, outdir)
+    run.conform("readers", scen, ["C16."])
+    if run.tier != "quick":
+        run.conform("readers_asan", scen, ["C16.", "C19.sanitizer"], variant="v2", harness_env=SAN_ENV)
+    return run.finish(rule="generated (matrix, encoding) pairs rendered as Harwell-Boeing, Rutherford-Boeing, Matrix Market and triplet files (general / symmetric with and without diagonal entries, shuffled coordinate entries, E/D/F descriptors, field widths and counts per line, scale prefix, optional right-hand-side block, real and complex, single and double) and read back")
+
+
 def check_C17(run):
     run.model_check("Match_3", "MC_Match.tla", "MC_Match_3.cfg", coverage=False)
     if run.tier != "quick":
